@@ -1,5 +1,5 @@
 (* C13 — Locale is a drop-in superset of LanguageIdentifier. *)
-From UL Require Import Bytes Subtags LangId Ext Grammar LangIdSpec LangIdProofs ExtProofs LocaleSpec LocaleSpecProofs RoundTrip Prefix PrefixProofs.
+From UL Require Import Bytes Subtags LangId Ext Grammar LangIdSpec LocaleInv LangIdProofs ExtProofs InvProofs LocaleSpec LocaleSpecProofs RoundTrip Prefix PrefixProofs.
 From Coq Require Import String.
 
 (* every input LanguageIdentifier accepts: same id, no extensions *)
@@ -23,6 +23,24 @@ Proof. reflexivity. Qed.
 Theorem C13_conv_drop : forall l : locale, mkLoc (loc_id l) extmap_default = mkLoc (loc_id l) extmap_default
   /\ loc_id (mkLoc (loc_id l) (loc_ext l)) = loc_id l.
 Proof. intros l. split; reflexivity. Qed.
+
+(* "drops exactly the extensions", observed on strings: for every locale value the parser can return, the
+   identifier obtained by the conversion prints to a string that LanguageIdentifier reads back as that same
+   identifier and that Locale reads back as that identifier with NO extension; and the locale's own printed
+   token list is that identifier's token list followed by the extension tokens only *)
+Theorem C13_conv_drop_reparse : forall s l, locale_from_bytes s = Ok l ->
+  langid_from_bytes (li_to_string (loc_id l)) = Ok (loc_id l)
+  /\ locale_from_bytes (li_to_string (loc_id l)) = Ok (mkLoc (loc_id l) extmap_default)
+  /\ loc_tokens l = li_tokens (loc_id l) ++ ext_tokens (loc_ext l).
+Proof.
+  intros s l H. apply locale_parse_inv in H. unfold loc_inv in H. apply andb_prop in H. destruct H as [Hid _].
+  pose proof (langid_roundtrip _ Hid) as Hrt.
+  split; [exact Hrt|]. split; [apply locale_embeds_langid; exact Hrt|reflexivity].
+Qed.
+Example C13_conv_drop_ex : exists l, locale_from_bytes (bs "sr_cyrl-RS-u-ca-buddhist"%string) = Ok l
+  /\ li_to_string (loc_id l) = bs "sr-Cyrl-RS"%string /\ loc_ext l <> extmap_default.
+Proof. eexists. split; [vm_compute; reflexivity|]. split; [vm_compute; reflexivity|vm_compute; discriminate]. Qed.
+Print Assumptions C13_conv_drop_reparse.
 
 Example C13_ex : locale_from_bytes (bs "sr_cyrl-RS"%string)
   = Ok (mkLoc (mkLangId (Some (bs "sr"%string)) (Some (bs "Cyrl"%string)) (Some (bs "RS"%string)) None) extmap_default).
